@@ -1,6 +1,9 @@
 package main
 
-import "strings"
+import (
+	"os"
+	"strings"
+)
 
 // ---- generator of syscall sequences for kind 0301 ----
 var c03Names = []string{"a", "b", "c", "l", "m", "a", "b"}
@@ -103,6 +106,9 @@ func c03GenOps(r *Rng) Sx {
 
 func genC03(g *Gen) {
 	nk := g.Vol(4000, 150000)
+	if os.Getenv("C03ONLY302") != "" { // development aid: only the hostile streams
+		nk = 0
+	}
 	for i := 0; i < nk; i++ {
 		in := c03GenOps(g.Rng)
 		out := kinds[0x0301](in)
